@@ -60,7 +60,7 @@ def main():
     if len(sys.argv) > 1:
         dirs = [d for d in dirs if any(os.path.basename(d).startswith(p) for p in sys.argv[1:])]
     own = 0
-    with concurrent.futures.ThreadPoolExecutor(max_workers=8) as ex:
+    with concurrent.futures.ThreadPoolExecutor(max_workers=16) as ex:
         for name, res, err in ex.map(one, dirs):
             if err:
                 print(f'ERROR {name}: {err}')
